@@ -33,6 +33,7 @@ def run(ck):
                                                                tblgen_sample=(25 if quick else 400))
     semcheck.check_witnesses(ck, "C05")
     semcheck.scope_leak_probes(ck, "C05")
+    semcheck.block_scope_matrix(ck, "C05")
     semcheck.shadow_probes(ck, "C05")
     ck.count("generated", len(progs) + nfaults, nontriv if not nfaults else set(range(len(nontriv) + nfaults)),
              sample={"files": progs[0].files}, seeded_faults=nfaults,
